@@ -217,11 +217,12 @@ def do_grid(case, rec, rng):
     for nu, nv in case["shapes"]:
         su, sv = rng.choice([0.5, 1.0, 12.5]), rng.choice([0.25, 1.0, 40.0])
         rot, dip = rng.choice(ANGLES), rng.choice(DIPS)
-        vertical = rng.random() < 0.15
+        vertical = rng.random() < 0.25
         default_origin = rng.random() < 0.25
         kwargs = dict(u_count=nu, v_count=nv, u_cell_size=su, v_cell_size=sv, rotation=rot)
         if vertical:
-            kwargs["vertical"] = True
+            kwargs["vertical"] = rng.choice([True, True, 1])  # the flag is accepted as a bool or as 0 / 1
+            rec.see("vertical-flag:" + type(kwargs["vertical"]).__name__)
             dip = 90.0
         else:
             kwargs["dip"] = dip
